@@ -102,7 +102,11 @@ def check_get_last(ref, W, s, key):
 def plan(tier, seed):
     unis = ["full", "sparse", "one-basetype"] + (["dense-versions", "names-only"] if tier == "thorough" else [])
     n = 6 if tier == "thorough" else 5
-    return {"shards": [{"universe": u, "index": i, "count": n} for u in unis for i in range(n)]}
+    shards = []
+    for u in unis:
+        nn = 16 if (tier == "thorough" and u == "sparse") else n     # the deep (k=2) universe gets more shards
+        shards += [{"universe": u, "index": i, "count": nn} for i in range(nn)]
+    return {"shards": shards}
 
 
 def run_shard(sh):
@@ -117,7 +121,7 @@ def run_shard(sh):
     W.materialize()
     fs = W.finders()
     rec = Recorder(sh["index"], sh["count"], sh["seed"])
-    k = 2 if sh["tier"] == "thorough" else 1
+    k = 2 if (sh["tier"] == "thorough" and sh["universe"] == "sparse") else 1
     for s in searches(ref, W, k):
         if not rec.mine(sh["universe"] + "|" + s):
             continue
@@ -153,4 +157,4 @@ def replay_case(kind, case):
 
 
 def coverage(m, tier, seed):
-    return {"bounds": {"k_further_edits": 2 if tier == "thorough" else 1, "second_last": True}, "exhaustive": True}
+    return {"bounds": {"k_further_edits": "2 on the sparse universe, 1 elsewhere" if tier == "thorough" else 1, "second_last": True}, "exhaustive": True}
